@@ -177,7 +177,11 @@ func renderPgn(games []bookGame, rng *Rng) string {
 	for gi, g := range games {
 		res := results[rng.Intn(len(results))]
 		fmt.Fprintf(&sb, "[Event \"Test %d\"]\n[Site \"?\"]\n[White \"A, B.\"]\n[Black \"C [D]\"]\n[Result \"%s\"]\n\n", gi, res)
+		clk := rng.Chance(25) // an export with a clock comment after every move: wrapped lines then often start with '[' and end with ']'
 		line := sanLine(g, func(i int) string {
+			if clk {
+				return fmt.Sprintf("{ [%%clk 0:%02d:%02d] } ", 2+i%3, 59-i%60)
+			}
 			switch rng.Intn(12) {
 			case 0:
 				return "{a comment} "
@@ -193,8 +197,17 @@ func renderPgn(games []bookGame, rng *Rng) string {
 		// wrap lines
 		words := strings.Fields(line)
 		col := 0
-		for _, wd := range words {
-			if col+len(wd) > 70 {
+		width := 70
+		if rng.Chance(30) {
+			width = 25 + rng.Intn(60)
+		}
+		insideStyle := clk && rng.Bool() // the exporter breaks lines inside the comments: before "[%clk" and after "...]"
+		for wi, wd := range words {
+			brk := col+len(wd) > width
+			if insideStyle {
+				brk = col > 0 && ((strings.HasPrefix(wd, "[%") && col > 20) || (wi > 0 && strings.HasSuffix(words[wi-1], "]") && col > 40))
+			}
+			if brk {
 				sb.WriteString("\n")
 				col = 0
 			}
